@@ -8,6 +8,7 @@ import Noodles.Bgzf.DriverC02
 import Noodles.Bgzf.DriverC03
 import Noodles.Cram.DriverC19
 import Noodles.Bcf.DriverC10
+import Noodles.Bcf.DriverC10Record
 import Noodles.Gff.DriverC18
 import Noodles.Trunc.DriverC13
 import Noodles.Bam.DriverC05
@@ -33,7 +34,7 @@ def dispatch (line : String) : String :=
   | "c03" :: rest => MtModel.handleC03 rest
   | "c11" :: rest => Fasta.handleC11 rest
   | "c19" :: rest => Cram.Index.handleC19 rest
-  | "c10" :: rest => Bcf.handleC10 rest
+  | "c10" :: rest => Bcf.handleC10X rest
   | "c18" :: rest => Gff.Driver.handleC18 rest
   | "c13" :: rest => Trunc.handleC13 rest
   | "c05" :: rest => Bam.Driver.handle rest
